@@ -228,7 +228,7 @@ Example C03_nonvacuous :
 Proof. vm_compute. repeat split. Qed.
 
 From Coq Require Import QArith Reals Qreals.
-From Dashu Require Import Float.DivMulModel Float.FilterProof Float.DivMulProof.
+From Dashu Require Import Float.DivMulModel Float.FilterProof Float.DivMulProof Float.ContractProof Float.DivContractR.
 
 (** Round::round_fract as written, WITH its coarse f32 pre-filter: for every pair of coarse tests that only
     answer when the strict comparison holds it is the exact comparison ... *)
@@ -308,6 +308,30 @@ Theorem C03_div_inv_panics : forall B digits_ub digits_lb p m s1 e1 s2 e2,
 Proof. exact ctx_div_panics. Qed.
 Print Assumptions C03_div_inv_panics.
 
+(** division end to end, in the words of the property: against the real quotient x of the operands, with
+    ulp_p(x) = B^(ex - p + 1) where B^ex <= |x| < B^(ex+1) *)
+Theorem C03_div_contract_R : forall B, 2 <= B -> forall p m s1 e1 s2 e2 ex,
+  1 <= p -> s2 <> 0 -> dlen B s1 <= p + dlen B s2 ->
+  let x := (fval B s1 e1 / fval B s2 e2)%R in
+  (bpow B ex <= Rabs x < bpow B (ex + 1))%R ->
+  exists a, repr_div B p m s1 e1 s2 e2 = Ok a /\
+  match a with
+  | AExact q e => fval B q e = x
+  | AInexact r e f =>
+      let v := fval B r e in let u := bpow B (ex - p + 1) in
+      v <> x /\ (Rabs (v - x) < u)%R /\ (is_half_mode m = true -> 2 * Rabs (v - x) <= u)%R /\
+      match m with
+      | MDown => (v < x)%R
+      | MUp => (x < v)%R
+      | MZero => (0 < x -> v < x)%R /\ (x < 0 -> x < v)%R
+      | MAway => (0 < x -> x < v)%R /\ (x < 0 -> v < x)%R
+      | MHalfEven | MHalfAway => True
+      end /\
+      (f = AddOne -> x < v)%R /\ (f = SubOne -> v < x)%R
+  end.
+Proof. exact repr_div_contract_R. Qed.
+Print Assumptions C03_div_contract_R.
+
 (** the FBig operator bodies of * and / in every ownership form, Context::max of the operand precisions *)
 Theorem C03_mul_div_operator_forms : forall B, 2 <= B -> forall digits_ub digits_lb p1 p2 m s1 e1 s2 e2,
   let p := ctx_max p1 p2 in
@@ -351,7 +375,8 @@ Example C03_div_nonvacuous :
   round_fract_sharp 10 MHalfEven 13 500 3 = AddOne /\ dlen 10 1 <= 3.
 Proof. vm_compute. repeat split; discriminate. Qed.
 
-From Dashu Require Import Float.ContractProof.
+From Dashu Require Import Float.ContractProof Float.DivParamsProof.
+From DashuGen Require Import FloatDivParams.
 
 (** soundness of the executable checker that judges every case (rational exact values): the exponent of x ... *)
 Theorem C03_rat_exp : forall B, 2 <= B -> forall N D, N <> 0 -> 0 < D ->
@@ -359,6 +384,16 @@ Theorem C03_rat_exp : forall B, 2 <= B -> forall N D, N <> 0 -> 0 < D ->
   (bpow B ex <= Rabs (xrat N D) < bpow B (ex + 1))%R.
 Proof. exact rat_exp_spec. Qed.
 Print Assumptions C03_rat_exp.
+
+(** the literals and the decision order of round_fract's closure, the pre-shrinking test of Context::div and the
+    scaling shifts of repr_div are re-read from float/src/round.rs / div.rs on every run *)
+Theorem C03_filter_source_constants :
+  (forall fl : Q -> Q, (forall x y, (x <= y)%Q -> (fl x <= fl y)%Q) -> (fl 1 == 1)%Q ->
+     (fl filter_c_gt_gen <= 1)%Q /\ (1 <= fl filter_c_lt_gen)%Q) /\
+  (forall B coarse_gt coarse_lt f k,
+     half_test_gen (coarse_gt f k) (coarse_lt f k) (2 * f ?= B ^ k) = half_test B coarse_gt coarse_lt f k).
+Proof. exact filter_source_constants. Qed.
+Print Assumptions C03_filter_source_constants.
 
 Theorem C03_cmp_kx : forall B, 2 <= B -> forall k N D a j, 0 < D ->
   match cmp_kx B k (XRat N D) a j with
@@ -368,6 +403,20 @@ Theorem C03_cmp_kx : forall B, 2 <= B -> forall k N D a j, 0 < D ->
   end.
 Proof. exact cmp_kx_spec. Qed.
 Print Assumptions C03_cmp_kx.
+
+Theorem C03_div_source_constants :
+  (forall B ub lb p m s1 e1 s2 e2,
+     ctx_div B ub lb p m s1 e1 s2 e2 =
+     let '(s1', e1') :=
+       if div_shrink_cond_gen (s1 =? 0) (ub s1) (lb s2) p
+       then approx_val (repr_round B (div_shrink_prec_gen (dlen B s2) p) m s1 e1) else (s1, e1) in
+     repr_div B p m s1' e1' s2 e2) /\
+  (forall B p s1 s2,
+     repr_div_shift B p s1 s2 =
+     if Z.rem s1 s2 =? 0 then 0
+     else div_shift_gen (Z.quot s1 s2 =? 0) (dlen B s2) p (dlen B (Z.rem s1 s2)) (dlen B (Z.quot s1 s2))).
+Proof. exact div_source_constants. Qed.
+Print Assumptions C03_div_source_constants.
 
 (** ... and the verdict: [true] implies every clause of the documented contract for r = s * B^e and x = N / D,
     with one ulp u = B^(ex - p + 1) *)
@@ -391,6 +440,13 @@ Theorem C03_check_contract_sound : forall B, 2 <= B -> forall p m N D s e f, 1 <
 Proof. exact check_contract_sound. Qed.
 Print Assumptions C03_check_contract_sound.
 
+(** with sound digit estimates, a dividend Context::div leaves unshrunk meets repr_div's precondition (its debug assertion) *)
+Theorem C03_div_precondition : forall B digits_ub digits_lb p s1 s2,
+  (forall s, dlen B s <= digits_ub s) -> (forall s, digits_lb s <= dlen B s) ->
+  (negb (s1 =? 0) && (digits_ub s1 >? digits_lb s2 + p)) = false -> dlen B s1 <= p + dlen B s2 \/ s1 = 0.
+Proof. exact ctx_div_precondition. Qed.
+Print Assumptions C03_div_precondition.
+
 Theorem C03_check_contract_magnitude : forall B, 2 <= B -> forall p m N D s e f, 1 <= p -> 0 < D ->
   check_contract B p m (XRat N D) s e f = true ->
   (m = MZero -> Rabs (fval B s e) <= Rabs (xrat N D))%R /\ (m = MAway -> Rabs (xrat N D) <= Rabs (fval B s e))%R.
@@ -405,30 +461,3 @@ Example C03_contract_nonvacuous :
   check_contract 10 3 MZero (XRat 1 8) 125 (-3) FExact = true /\
   check_contract 10 3 MZero (XRat 1 8) 12 (-2) (FInexact NoOp) = false.
 Proof. vm_compute. repeat split. Qed.
-
-From Dashu Require Import Float.DivParamsProof.
-From DashuGen Require Import FloatDivParams.
-
-(** the literals and the decision order of round_fract's closure, the pre-shrinking test of Context::div and the
-    scaling shifts of repr_div are re-read from float/src/round.rs / div.rs on every run *)
-Theorem C03_filter_source_constants :
-  (forall fl : Q -> Q, (forall x y, (x <= y)%Q -> (fl x <= fl y)%Q) -> (fl 1 == 1)%Q ->
-     (fl filter_c_gt_gen <= 1)%Q /\ (1 <= fl filter_c_lt_gen)%Q) /\
-  (forall B coarse_gt coarse_lt f k,
-     half_test_gen (coarse_gt f k) (coarse_lt f k) (2 * f ?= B ^ k) = half_test B coarse_gt coarse_lt f k).
-Proof. exact filter_source_constants. Qed.
-Print Assumptions C03_filter_source_constants.
-
-Theorem C03_div_source_constants :
-  (forall B ub lb p m s1 e1 s2 e2,
-     ctx_div B ub lb p m s1 e1 s2 e2 =
-     let '(s1', e1') :=
-       if div_shrink_cond_gen (s1 =? 0) (ub s1) (lb s2) p
-       then approx_val (repr_round B (div_shrink_prec_gen (dlen B s2) p) m s1 e1) else (s1, e1) in
-     repr_div B p m s1' e1' s2 e2) /\
-  (forall B p s1 s2,
-     repr_div_shift B p s1 s2 =
-     if Z.rem s1 s2 =? 0 then 0
-     else div_shift_gen (Z.quot s1 s2 =? 0) (dlen B s2) p (dlen B (Z.rem s1 s2)) (dlen B (Z.quot s1 s2))).
-Proof. exact div_source_constants. Qed.
-Print Assumptions C03_div_source_constants.
